@@ -384,16 +384,36 @@ def _exchange_code_for_token(
 # ---------------------------------------------------------------------------
 
 
+def _has_browser_ambiguous_chars(url: str) -> bool:
+    """Report characters a browser's URL parser treats differently from ``urllib``.
+
+    WHATWG URL parsing reads a backslash as a slash in http(s) URLs and drops
+    tabs and newlines before parsing; ``urlparse`` does neither.  A URL
+    containing them can therefore name one origin to this module and another
+    to the browser that follows the redirect, so it is never accepted.
+    """
+    return any(ch == "\\" or ch == " " or ord(ch) < 0x20 or ord(ch) == 0x7F for ch in url)
+
+
 def _validate_original_url(url: str, prefix: str) -> str:
     """Validate the original URL is relative and within the expected prefix."""
+    fallback = prefix or "/"
     if len(url) > _MAX_ORIGINAL_URL_LEN:
         url = url[:_MAX_ORIGINAL_URL_LEN]
     parsed = urlparse(url)
     if parsed.scheme or parsed.netloc:
         # Not a relative URL — fall back to the prefix root
-        return prefix or "/"
-    if prefix and not url.startswith(prefix):
-        return prefix or "/"
+        return fallback
+    # Must be an absolute *path*: a browser resolves "//host", "/\\host" and
+    # (after any number of extra slashes) "///host" as another origin.
+    if not url.startswith("/") or url[1:2] in ("/", "\\") or _has_browser_ambiguous_chars(url):
+        return fallback
+    path = url.split("?", 1)[0].split("#", 1)[0]
+    if any(seg.lower().replace("%2e", ".") in (".", "..") for seg in path.split("/")):
+        # Dot segments are resolved by the browser and can climb out of the prefix.
+        return fallback
+    if prefix and not (url == prefix or (url.startswith(prefix) and url[len(prefix)] in "/?#")):
+        return fallback
     return url
 
 
@@ -415,22 +435,32 @@ def _validate_return_to(url: str, allowed_origins: frozenset[str] = frozenset())
     """
     if not url or len(url) > 2048:
         return ""
+    if _has_browser_ambiguous_chars(url):
+        # e.g. "http://evil.example\\@localhost/": urllib sees host "localhost",
+        # a browser ends the authority at the backslash and goes to evil.example.
+        return ""
     parsed = urlparse(url)
     if parsed.scheme not in ("http", "https"):
         return ""
     if not parsed.netloc:
         return ""
+    try:
+        port = parsed.port
+    except ValueError:
+        return ""
     # localhost with any port is always allowed
     hostname = parsed.hostname or ""
     if _is_localhost(hostname) and parsed.scheme == "http":
         return url
-    # Check against allowlist (scheme + host, ignoring path)
+    # Check against allowlist (scheme + host, ignoring path).  An entry without
+    # a port names the scheme's default port: another port is another origin.
     origin = f"{parsed.scheme}://{parsed.hostname}"
-    if origin in allowed_origins:
+    default_port = 443 if parsed.scheme == "https" else 80
+    if origin in allowed_origins and port in (None, default_port):
         return url
     # Also try with explicit port
-    if parsed.port:
-        origin_with_port = f"{parsed.scheme}://{parsed.hostname}:{parsed.port}"
+    if port:
+        origin_with_port = f"{parsed.scheme}://{parsed.hostname}:{port}"
         if origin_with_port in allowed_origins:
             return url
     return ""
